@@ -602,9 +602,7 @@ func c19Workspace(res *core.Result, r gen.R, p c19Case, env *core.Env, fail func
 	}
 	maxLink := 4095
 	if format == "iso" {
-		// avoidance switch tied to the open C06 finding (Rock Ridge continuation areas): longer
-		// targets or names make the directory unreadable before any attribute can be observed
-		maxLink = 100
+		maxLink = 1000
 	}
 	for i, tgt := range symTargets(r, maxLink) {
 		t = append(t, TNode{Path: fmt.Sprintf("link%02d", i), Link: tgt})
